@@ -82,7 +82,6 @@ func init() {
 	pureUF("github.com/cometbft/cometbft/crypto.PubKey.VerifySignature", "sigOK", "PubKey.VerifySignature(msg,sig) is true only for a signature made over msg with the matching private key (A-SIG)", false)
 	pureUF("(github.com/cosmos/cosmos-sdk/x/staking/types.Validator).GetBondedTokens", "bondedTokens", "Validator.GetBondedTokens is a pure function of the validator record", false)
 	pureUF("(github.com/cosmos/cosmos-sdk/x/staking/types.Validator).BondedTokens", "bondedTokens", "Validator.BondedTokens is a pure function of the validator record", false)
-	pureUF("github.com/cosmos/cosmos-sdk/crypto/codec.ToCmtProtoPublicKey", "tmPk", "ToCmtProtoPublicKey is a pure partial function of the public key (the key the consensus engine is told)", true)
 	pureUF("(github.com/cosmos/cosmos-sdk/x/staking/types.Validator).CmtConsPublicKey", "cmtConsPublicKey", "Validator.CmtConsPublicKey is a pure partial function of the validator record", true)
 	pureUF("(github.com/cosmos/cosmos-sdk/x/staking/types.Validator).GetConsAddr", "stakingConsAddr", "staking Validator.GetConsAddr is a pure partial function of the validator record", true)
 	pureUF("github.com/cosmos/cosmos-sdk/crypto/codec.FromCmtProtoPublicKey", "fromCmtProtoPublicKey", "FromCmtProtoPublicKey is a pure partial function of the proto key", true)
